@@ -966,8 +966,12 @@ static int sexp_check_type(sexp ctx, sexp a, sexp b) {
     && sexp_vector_ref(v, sexp_make_fixnum(d)) == b;
 }
 
+/* a C function may re-enter the VM and grow (i.e. replace) the stack */
+#define sexp_reload_stack() (stack = sexp_stack_data(sexp_context_stack(ctx)))
+
 #if SEXP_USE_GREEN_THREADS
 #define sexp_fcall_return(x, i)                             \
+  sexp_reload_stack();                                      \
   if (sexp_exceptionp(x)) {                                 \
     if (x == sexp_global(ctx, SEXP_G_IO_BLOCK_ERROR)) {     \
       fuel = 0; ip--; goto loop;                            \
@@ -987,6 +991,7 @@ static int sexp_check_type(sexp ctx, sexp a, sexp b) {
   }
 #else
 #define sexp_fcall_return(x, i)                                 \
+  sexp_reload_stack();                                          \
   top -= i; _ARG1 = x; ip += sizeof(sexp); sexp_check_exception();
 #endif
 
@@ -2117,6 +2122,7 @@ sexp sexp_apply (sexp ctx, sexp proc, sexp args) {
     else
 #endif
     i = sexp_write_char(ctx, sexp_unbox_character(_ARG1), _ARG2);
+    sexp_reload_stack();
     if ((int)i == EOF) {
       if (!sexp_port_openp(_ARG2))
         sexp_raise("write-char: port is closed", _ARG2);
@@ -2170,6 +2176,7 @@ sexp sexp_apply (sexp ctx, sexp proc, sexp args) {
     errno = 0;
 #endif
     i = sexp_write_string_n(ctx, sexp_bytes_data(tmp1)+j, sexp_unbox_fixnum(_ARG2), _ARG3);
+    sexp_reload_stack();
 #if SEXP_USE_GREEN_THREADS
     if (i < sexp_unbox_fixnum(_ARG2) && errno == EAGAIN) {
       if (sexp_port_stream(_ARG3)) clearerr(sexp_port_stream(_ARG3));
@@ -2201,6 +2208,7 @@ sexp sexp_apply (sexp ctx, sexp proc, sexp args) {
     errno = 0;
 #endif
     i = sexp_read_char(ctx, _ARG1);
+    sexp_reload_stack();
     if ((int)i == EOF) {
       if (!sexp_port_openp(_ARG1)) {
         sexp_raise("read-char: port is closed", _ARG1);
@@ -2237,6 +2245,7 @@ sexp sexp_apply (sexp ctx, sexp proc, sexp args) {
     errno = 0;
 #endif
     i = sexp_read_char(ctx, _ARG1);
+    sexp_reload_stack();
     if ((int)i == EOF) {
       if (!sexp_port_openp(_ARG1))
         sexp_raise("peek-char: port is closed", _ARG1);
